@@ -66,12 +66,16 @@ def _inc(kinds):
             'skip_ctors': ['cppPreprocessor.cxx'], 'tuflags': ['-fno-inline'],
             'cut': ['_ZNK8Filename6existsEv', _DISJUNCT], 'models': ['strdisjunct.c'],
             'cbmc_flags': ['--no-pointer-check'], 'object_bits': 16,
+            # unchanged tree: <= 2.5 GB; the cap turns a blow-up (symbolic candidates consulted in phase B) into a quick error
+            'mem_gb': 5,
             'desc': 'CPPPreprocessor::find_include search order over a table-driven file system; search directories d1 d2 d3 given as '
                     + ' '.join('-S' if kinds & (1 << i) else '-I' for i in range(3))
                     + (' (no -S directory: <x> must not be found; x.h exists in the working directory)' if kinds == 0 else ''),
-            'domain': 'candidates {x.h in cwd, inc/x.h (includer inc/f.h), d1/x.h, d2/x.h, d3/x.h}; concrete loop over include form '
-                      '(quotes / angle = <x> without -noangles) and over the position of the first existing candidate in the '
-                      'applicable list (or none); existence of every other candidate symbolic',
+            'domain': 'candidates {x.h in cwd, inc/x.h (includer inc/f.h), d1/x.h, d2/x.h, d3/x.h}; phase A: include form (quotes / '
+                      'angle = <x> without -noangles) x every one of the 32 existence tables of the five candidates, enumerated '
+                      'by a concrete loop (an implementation with another search order is decided here by a counterexample); '
+                      'phase B (only when phase A held): concrete loop over include form and over the position of the first '
+                      'existing candidate in the applicable list (or none), existence of every other candidate symbolic',
             'oracle': 'found iff a candidate of the applicable list exists; result path = first existing candidate in the order cwd, '
                       'includer dir, -I/-S dirs in command-line order (quotes) / -S dirs only (angle); source S_local only for '
                       'cwd, S_system for -S, S_alternate otherwise; no other path is probed',
